@@ -71,6 +71,11 @@ fn victims() -> Vec<Victim> {
         v("break (maybe outside a loop)", call(Name::Break, &[])),
         v("special redirection", Cmd::Call(bad(), Name::Colon, vec![])),
         v("special redirection (set)", Cmd::Call(bad(), Name::Set, vec![1])),
+        v("exec 3<missing", Cmd::Call(bad(), Name::Exec, vec![])),
+        v("exec (no operands)", call(Name::Exec, &[])),
+        v(". missing file", call(Name::Dot, &[])),
+        v("command . missing file", Cmd::Call(via(), Name::Dot, vec![])),
+        v("command exec 3<missing", Cmd::Call(Deco { bad_redir: true, via_command: true }, Name::Exec, vec![])),
         v("regular redirection", Cmd::Call(bad(), Name::Probe, vec![55])),
         v("function redirection", Cmd::Call(bad(), Name::User(1), vec![])),
         v("not found + redirection", Cmd::Call(bad(), Name::User(9), vec![])),
@@ -192,6 +197,13 @@ fn contexts(v: &Cmd) -> Vec<(&'static str, Vec<List>, bool)> {
             true,
         ),
         ("subshell", vec![l1(Cmd::Subshell(seq(vec![probe(1, 0), v(), probe(2, 0)]))), l1(probe(3, 0))], false),
+        ("command substitution", vec![l1(Cmd::AssignSub(0, seq(vec![probe(1, 0), v(), probe(2, 0)]))), l1(probe(3, 0))], false),
+        ("command substitution, status ignored", vec![l1(Cmd::SubstArg(seq(vec![v(), probe(2, 0)]))), l1(probe(3, 0))], false),
+        (
+            "command substitution in condition",
+            vec![l1(Cmd::If(l1(Cmd::AssignSub(0, seq(vec![v(), probe(1, 0)]))), l1(probe(2, 0)), vec![], None)), l1(probe(3, 0))],
+            false,
+        ),
         (
             "subshell in condition",
             vec![l1(Cmd::If(l1(Cmd::Subshell(seq(vec![v(), probe(1, 0)]))), l1(probe(2, 0)), vec![], None)), l1(probe(3, 0))],
@@ -292,7 +304,7 @@ fn emit_out(
             w.count(&format!("{stream} exit trap runs:{}", tr.iter().filter(|(k, _)| *k == TRAP_KEY).count()));
         }
     }
-    let term = format!("({}, {}, {}, {})", coq_prog(p), coq::opt(trapkey), coq::b(unordered), out.coq());
+    let term = format!("({}, {}, {}, {})", coq_prog(p), coq::opt(trapkey), coq::b(unordered || has_async(p)), out.coq());
     let json = format!(
         "{{\"stream\":{},\"script\":{},\"observed\":{}}}",
         json_str(stream),
@@ -588,6 +600,8 @@ fn main() {
                 && (name.contains("break 0")
                     || name.contains("exit 1 2")
                     || name.contains("special redirection")
+                    || name.contains("exec 3<missing")
+                    || name.contains(". missing file")
                     || name.contains("expansion error")
                     || name.contains("assignment error")
                     || name.contains("syntax error")
@@ -690,7 +704,12 @@ fn scrub_error_sources(p: &mut Prog) {
             Cmd::Assign(_, w) => word(w),
             Cmd::Readonly(x) => *c = Cmd::Assign(*x, Word::Lit(0)),
             Cmd::Call(..) => {}
-            Cmd::Brace(l) | Cmd::Subshell(l) | Cmd::TrapExit(l) => list(l),
+            Cmd::Brace(l) | Cmd::Subshell(l) | Cmd::TrapExit(l) | Cmd::AssignSub(_, l) | Cmd::SubstArg(l) => list(l),
+            Cmd::Async(a) => {
+                let mut l = vec![(**a).clone()];
+                list(&mut l);
+                **a = l.pop().unwrap();
+            }
             Cmd::If(c1, b, elifs, els) => {
                 list(c1);
                 list(b);
